@@ -165,18 +165,20 @@ class LinDichSpectrumBase(DFunction, EnergyUnitsManaged):
         self.data += spect.data
         
         
-    def load_data(self, filename, ext=None, replace=False):
-        """Load the spectrum from a file
-        
-        Uses the load method of the DFunction class to load the linear dichroism
-        spectrum from a file. It sets the axis type to 'frequency', otherwise
-        no changes to the inherited method are applied.
-        
-        Parameters
-        ----------
+    def save_data(self, filename):
+        """Saves the data of this spectrum together with its frequency axis
         
         """
-        super().load_data(filename, ext=ext, axis='frequency', replace=replace)
+        super().save_data(filename, with_axis=self.axis)
+
+
+    def load_data(self, filename):
+        """Loads data from file into this spectrum (as AbsSpectrumBase does)
+        
+        """
+        if self.axis is None:
+            raise Exception("The property `axis` has to be defined")
+        super().load_data(filename, with_axis=self.axis)
 
     #save method is inherited from DFunction 
     
